@@ -155,7 +155,7 @@ pub mod parser {
     }
 
     pub fn new_line<'a>() -> Parser<'a, char, ()> {
-        one_of("\r\n").discard()
+        tag("\r\n").discard() | one_of("\r\n").discard()
     }
 
     /// any whitespace character
@@ -215,6 +215,7 @@ pub mod parser {
     /// a = {fill: red}
     fn class_and_style<'a>() -> Parser<'a, char, (String, String)> {
         (-space() * ident() - space() - sym('=') - space()) + css_styles()
+            - space()
     }
 
     /// Parses:
